@@ -419,8 +419,66 @@ def relabel_string_literal_findings(case, queries: str, violations: List[Violati
                 v.mech = "string-literal-newline-escape-altered"
 
 
+BYTECODE_PROBE = """
+import asyncio, importlib, json, sys
+import httpx
+sys.path.insert(0, sys.argv[1])
+pkg = importlib.import_module("graphql_client")
+captured = []
+def handler(request):
+    captured.append(json.loads(request.content))
+    return httpx.Response(200, json={"data": {"user": None}})
+if sys.argv[2] == "sync":
+    pkg.Client(url="http://x.test/", http_client=httpx.Client(transport=httpx.MockTransport(handler))).get_user()
+else:
+    asyncio.run(pkg.Client(url="http://x.test/", http_client=httpx.AsyncClient(transport=httpx.MockTransport(handler))).get_user())
+print(json.dumps(captured[0]["query"]))
+"""
+
+
+def bytecode_history_worker(case: Dict[str, Any]) -> CaseResult:
+    """A history across interpreters: generate, let an application import the package (Python caches its bytecode next to the sources), edit a string literal of an
+    operation WITHOUT changing its length, generate again into the same target, and let a new interpreter import and call: the document sent must be the edited one."""
+    import subprocess
+    import time
+
+    from ..genpkg import run_cli, write_case
+    sdl = "type Query {\n  user(name: String): User\n}\n\ntype User {\n  id: ID\n}\n"
+    q = 'query GetUser { user(name: "%s") { id } }'
+    cfg_full = dict(case["cfg"])
+    mode = "sync" if cfg_full.get("async_client") is False else "async"
+    env = {k: v for k, v in os.environ.items() if k != "PYTHONDONTWRITEBYTECODE"}
+    violations: List[Violation] = []
+    stats: Dict[str, Any] = {}
+    with core.Scratch() as root:
+        sent = []
+        for word in ("alpha", "omega"):
+            cfg = write_case(root, sdl, q % word, cfg_full)
+            with warnings.catch_warnings():
+                warnings.simplefilter("ignore")
+                g = run_cli(root, "client", cfg)
+            if not g.ok:
+                return CaseResult("inconclusive", note="generation failed: %s" % g.exc_type)
+            p = subprocess.run(["/venv/bin/python", "-c", BYTECODE_PROBE, str(root), mode], capture_output=True, text=True, env=env, timeout=120)
+            if p.returncode != 0:
+                return CaseResult("inconclusive", note="probe interpreter failed: " + p.stderr[-300:])
+            sent.append(json.loads(p.stdout.strip().splitlines()[-1]))
+            stats["bytecode_history_steps"] = stats.get("bytecode_history_steps", 0) + 1
+            if word == "alpha":
+                if not list((root / "graphql_client").glob("__pycache__/*.pyc")):
+                    return CaseResult("inconclusive", note="the probe interpreter cached no bytecode")
+                time.sleep(1.2)  # cached bytecode is validated by whole seconds of the source's modification time: the edit happens in a later second
+        if '"omega"' not in sent[1] or '"alpha"' in sent[1]:
+            violations.append(Violation("C02", "regenerated-document-is-the-one-sent", "after editing the literal \"alpha\" to \"omega\" and generating again into the same target, a new interpreter "
+                                        "(bytecode caching on, as applications run) still sends: %s" % sent[1][:300], ["history.bytecode_cache", "config." + mode], dict(case), mech="c02:stale-after-regeneration"))
+    return CaseResult("violated" if violations else "held", [v.to_json() for v in violations], stats, {"features": ["history.bytecode_cache", "config." + mode]})
+
+
 def worker(case: Dict[str, Any]) -> CaseResult:
     from graphql import OperationDefinitionNode, parse
+
+    if case.get("kind") == "bytecode-history":
+        return bytecode_history_worker(case)
 
     from ..deps import make_tracer
     from ..genpkg import RefServer, call_method, find_methods, import_package, make_client, patched_ws, probe_param_map, run_cli, write_case
@@ -955,6 +1013,9 @@ def run_shared(prop: str, tier: str, seed: int, n_cases: int, rule: str, floors:
     if prop in ("C01", "C02", "C04", "C05"):
         cases.extend(corpus_cases(prop, tier))
         cases.extend(scale_cases(prop, tier))
+        if prop == "C02":
+            cases.extend({"kind": "bytecode-history", "seed": seed, "idx": 980000 + k, "cfg": cfg_, "props": [prop], "tier": tier, "dirty": [], "corpus": "history/bytecode"}
+                         for k, cfg_ in enumerate([{}, {"async_client": False}, {"opentelemetry_client": True}, {"async_client": False, "convert_to_snake_case": False}]))
         cases.extend(fraggraph_cases(prop, tier, seed, {"C01": 60, "C02": 120, "C04": 80, "C05": 40}[prop] * (8 if tier == "thorough" else 1)))
 
     def on_result(case, res):
